@@ -3,6 +3,7 @@
 use vstd::prelude::*;
 use std::mem::swap;
 use std::ops::{Div, Rem};
+use std::sync::Arc;
 verus! {
 //@include common/prelude.vrs
 //@include common/tile_bbox.vrs
@@ -91,5 +92,55 @@ pub proof fn lemma_grows_trans(a: TileBBoxPyramid, b: TileBBoxPyramid, c: TileBB
 							}
 						}
 //@end
+
+// ---- single-tile lookup (R5: async erased): descent through the root and at most two leaf directories
+impl ByteRange {
+//@extract fn file="versatiles_core/src/types/byte_range.rs" scope="impl ByteRange" name="get_shifted_forward"
+//@ret r
+//@spec
+		ensures r.length == self.length, r.offset == (if self.offset + offset <= u64::MAX { (self.offset + offset) as u64 } else { u64::MAX })
+//@end
+}
+impl EntriesV3 {
+	// find_tile: verified against the PMTiles lookup rule in unit pmtiles_dir; here: some entry of the directory or None
+	#[verifier::external_body]
+	pub fn find_tile(&self, tile_id: u64) -> (r: Option<EntryV3>) { unimplemented!() }
+}
+// coord_to_tile_id (unit pmtiles_codec): Ok exactly for coordinates of the tile grid
+#[verifier::external_body]
+pub fn coord_get_tile_id(c: &TileCoord3) -> (r: Result<u64, VErr>) ensures r is Ok <==> c.valid() { unimplemented!() }
+#[verifier::external_body] pub struct AbsFile { }
+impl AbsFile {
+	pub uninterp spec fn bytes(&self) -> Seq<u8>;
+	#[verifier::external_body]
+	pub fn read_range(&self, range: &ByteRange) -> (r: Result<Blob, VErr>)
+		ensures r is Ok ==> range.offset + range.length <= self.bytes().len() && r.unwrap()@ == self.bytes().subrange(range.offset as int, range.offset + range.length)
+	{ unimplemented!() }
+}
+// R6: Mutex<LimitedCache<ByteRange, Arc<Blob>>> -> AbsLeafCache (C20: get_or_set returns the stored value or what the loader yields)
+#[verifier::external_body] pub struct AbsLeafCache { }
+#[verifier::external_body] pub struct AbsLeafGuard { }
+impl AbsLeafCache { #[verifier::external_body] pub fn lock(&self) -> (g: AbsLeafGuard) { unimplemented!() } }
+impl AbsLeafGuard {
+	#[verifier::external_body]
+	pub fn get_or_set<F: FnOnce() -> Result<std::sync::Arc<Blob>, VErr>>(&mut self, key: &ByteRange, callback: F) -> (r: Result<std::sync::Arc<Blob>, VErr>)
+		requires callback.requires(())
+	{ unimplemented!() }
+}
+#[verifier::external_body] pub struct HeaderV3Abs { }
+impl HeaderV3Abs { pub uninterp spec fn tile_data_offset(&self) -> u64; #[verifier::external_body] pub fn tile_data_offset_exec(&self) -> (r: u64) ensures r == self.tile_data_offset() { unimplemented!() } }
+pub struct PMTilesReader { pub data_reader: AbsFile, pub header: HeaderV3Abs, pub internal_compression: TileCompression, pub leaves_bytes: Blob, pub leaves_cache: AbsLeafCache, pub root_bytes_uncompressed: std::sync::Arc<Blob> }
+impl PMTilesReader {
+//@extract fn file="versatiles_container/src/container/pmtiles/reader.rs" scope="impl TilesReaderTrait for PMTilesReader" name="get_tile_data"
+//@rewrite "coord.get_tile_id()" => "coord_get_tile_id(coord)" R7
+//@rewrite "self.header.tile_data.offset" => "self.header.tile_data_offset_exec()" R6
+//@ret r
+//@spec
+		// any coordinate, any (decodable or not) directories: a tile, nothing, or an error — never a panic; at most 3 directory levels (C19, C16)
+		ensures r is Ok && r.unwrap() is Some ==> coord.valid(),
+//@loop 1
+			invariant coord.valid(),
+//@end
+}
 } // verus!
 fn main() {}
